@@ -37,6 +37,9 @@ SEEDS = [
     ('js', [b'var ', b'a', b'=', b"'x'", b'+', b'1.50', b';', b'if(a)', b'{b(/r/g)}', b'else ', b'c=`a${b}`']),
     ('json', [b'{', b'"a"', b':', b'[', b'1.50e+3', b',', b'true', b',', b'"\\u00e9"', b']', b'}']),
     ('svg', [b'<svg>', b'<path d="', b'M10 10', b'L20.0 20', b'a1 1 0 0110 10', b'z', b'"', b' fill="#ff0000"', b'/>', b'</svg>']),
+    # every path command letter in both cases, one token per letter and per argument: deleting / duplicating / swapping a token or
+    # truncating gives every 'wrong number of arguments' shape for every command
+    ('svg', [b'<svg><path d="', b'M', b'0', b' 0', b'L', b'1', b' 1', b'H', b'2', b'V', b'3', b'C', b'1', b' 1', b' 2', b' 2', b' 3', b' 3', b'S', b'4', b' 4', b' 5', b' 5', b'Q', b'6', b' 6', b' 7', b' 7', b'T', b'8', b' 8', b'A', b'1', b' 1', b' 0', b' 0', b' 1', b' 9', b' 9', b'Z', b'm', b'0', b' 0', b'l', b'1', b' 1', b'h', b'2', b'v', b'3', b'c', b'1', b' 1', b' 2', b' 2', b' 3', b' 3', b's', b'4', b' 4', b' 5', b' 5', b'q', b'6', b' 6', b' 7', b' 7', b't', b'8', b' 8', b'a', b'1', b' 1', b' 0', b' 0', b' 1', b' 9', b' 9', b'z', b'"/></svg>']),
     ('xml', [b'<?xml version="1.0"?>', b'<a b="c&#38;">', b' x ', b'<![CDATA[y]]>', b'<!--c-->', b'</a>']),
     ('num', [b'-', b'012', b'.', b'3400', b'e', b'+', b'05']),
     ('num', [b'.', b'000', b'12', b'e', b'-', b'9']),
